@@ -24,3 +24,43 @@ Proof.
   - apply high_byte_plain_nb; exact H.
   - apply negb_true_iff in H. apply orb_false_elim in H as [H H2]. apply orb_false_elim in H as [_ H1]. split; assumption.
 Qed.
+
+(* ---- the TypeScript side (round 7). Model/Render.is_idc, the identifier class of the specification
+   lexer and of the domain predicate dom_b, admits every byte >= 128. So a name made of UTF-8 bytes
+   >= 128 and ASCII letters, digits, _ and $ is a legal leaf of dom_b, and the site theorems apply to the
+   real bytes: no renaming to ASCII is involved. ---- *)
+Require Import TT.Spec.TsType TT.Model.Render TT.Model.C05Emit TT.Spec.C05Spec TT.Spec.C05Known.
+Require Import TT.Proofs.C05PrefixProofs.
+
+Definition low_idc (c : ascii) : bool :=
+  let n := nat_of_ascii c in
+  (((65 <=? n) && (n <=? 90)) || ((97 <=? n) && (n <=? 122)) || ((48 <=? n) && (n <=? 57)) || (n =? 95) || (n =? 36))%nat.
+Definition high_or_idc (c : ascii) : bool := (128 <=? nat_of_ascii c) || low_idc c.
+
+Lemma high_or_idc_is_idc c : high_or_idc c = is_idc c.
+Proof. unfold high_or_idc, is_idc, low_idc. cbv zeta. apply orb_comm. Qed.
+
+Lemma utf8_ident_b n : n <> [] -> forallb high_or_idc n = true -> ident_b n = true.
+Proof.
+  intros Hne H. unfold ident_b. apply andb_true_iff. split.
+  - destruct n; [congruence | reflexivity].
+  - clear Hne. induction n as [|c r IH]; [reflexivity|]. cbn [forallb] in *.
+    apply andb_true_iff in H as [Hc Hr]. rewrite <- high_or_idc_is_idc, Hc, (IH Hr). reflexivity.
+Qed.
+
+Lemma utf8_name_dom n : n <> [] -> forallb high_or_idc n = true ->
+  reserved n = false -> one_of n table_names = false -> dom_b (RPath n []) = true.
+Proof.
+  intros Hne H Hr Ht. unfold dom_b. cbn [dom_m lookup]. rewrite (utf8_ident_b n Hne H), Hr, Ht. reflexivity.
+Qed.
+
+Theorem utf8_names_ts n : n <> [] -> forallb high_or_idc n = true ->
+  reserved n = false -> one_of n table_names = false ->
+  dom_b (RPath n []) = true /\
+  forall s md, site_is_type s md = true -> kf_C05 s md [] (RPath n []) = false ->
+  exists text, emit_type s md [] (RPath n []) = Some text /\
+               observe (site_is_type s md) text = Some (expected s [] (RPath n [])).
+Proof.
+  intros Hne H Hr Ht. pose proof (utf8_name_dom n Hne H Hr Ht) as Hd. split; [exact Hd|].
+  intros s md Hty Hk. apply sound_ts_sites; try constructor; auto.
+Qed.
